@@ -169,4 +169,6 @@ class GlueAllSizes(Contract):
         return iter(())
 
     def static_obligations(self, tier):
-        return records(vp_spec(), self.name, prefix="vp.") + records(nnls_spec(), self.name, prefix="nnls.")
+        from contracts.unbounded import engine_selftest
+
+        return records(vp_spec(), self.name, prefix="vp.") + records(nnls_spec(), self.name, prefix="nnls.") + engine_selftest()
